@@ -1453,14 +1453,15 @@ func (p *Parser) parseList() ast.Node {
 
 func (p *Parser) parseExprList(end token.Type) []ast.Expression {
 	list := make([]ast.Expression, 0)
-	if p.peekTokenIs(end) {
-		p.nextToken()
-		return list
-	}
 	for p.peekTokenIs(token.NEWLINE) {
 		if err := p.nextToken(); err != nil {
 			return nil
 		}
+	}
+	// The list may be empty, also when it is broken across lines
+	if p.peekTokenIs(end) {
+		p.nextToken()
+		return list
 	}
 	p.nextToken()
 	expr := p.parseExpression(LOWEST)
@@ -1514,14 +1515,15 @@ func (p *Parser) parseExprList(end token.Type) []ast.Expression {
 
 func (p *Parser) parseNodeList(end token.Type) []ast.Node {
 	list := make([]ast.Node, 0)
-	if p.peekTokenIs(end) {
-		p.nextToken()
-		return list
-	}
 	for p.peekTokenIs(token.NEWLINE) {
 		if err := p.nextToken(); err != nil {
 			return nil
 		}
+	}
+	// The list may be empty, also when it is broken across lines
+	if p.peekTokenIs(end) {
+		p.nextToken()
+		return list
 	}
 	p.nextToken()
 	expr := p.parseNode(LOWEST)
